@@ -499,7 +499,83 @@ pub fn g7_candidate(rng: &mut Rng) -> Option<(ChessBoard, &'static str)> {
     if low || ep_illegal || rng.pct(3) { Some((b, if low { "lowmob" } else { kind })) } else { None }
 }
 
+/// G7b (added after seeded changes C03-b / C04-b): two more rejection-sampled shapes.
+///  * "pinned-only": the side to move is not in check, has at least one legal move, and every legal move is made by a
+///    piece standing between its king and an enemy slider (king boxed in);
+///  * "minimal-terminal": three or four men, each side a lone king or king + one minor piece, and the side to move has no
+///    legal move (stalemate or mate with insufficient material).
+pub fn g7b_candidate(rng: &mut Rng) -> Option<(ChessBoard, &'static str)> {
+    let mut cells: [Option<Piece>; 64] = [None; 64];
+    let stm = if rng.pct(50) { Color::White } else { Color::Black };
+    let (own, opp) = (stm, if stm == Color::White { Color::Black } else { Color::White });
+    let edge: [usize; 28] = [0,1,2,3,4,5,6,7,8,16,24,32,40,48,56,57,58,59,60,61,62,63,15,23,31,39,47,55];
+    let corners: [usize; 4] = [0, 7, 56, 63];
+    let minimal = rng.pct(40);
+    let k = if rng.pct(70) { corners[rng.below(4)] } else { edge[rng.below(28)] };
+    cells[k] = Some(Piece(PieceType::King, own));
+    let none = CastlingRights::from_index(0).unwrap();
+    if minimal {
+        // enemy king within distance 2..3, one or two minors
+        for _ in 0..50 {
+            let s = rng.below(64);
+            let d = ((s / 8) as i32 - (k / 8) as i32).abs().max(((s % 8) as i32 - (k % 8) as i32).abs());
+            if cells[s].is_none() && (2..=3).contains(&d) { cells[s] = Some(Piece(PieceType::King, opp)); break; }
+        }
+        if !cells.iter().any(|c| *c == Some(Piece(PieceType::King, opp))) { return None; }
+        let minors = [PieceType::Bishop, PieceType::Knight];
+        for _ in 0..50 { let s = rng.below(64); if cells[s].is_none() { cells[s] = Some(Piece(minors[rng.below(2)], opp)); break; } }
+        if rng.pct(40) { for _ in 0..50 { let s = rng.below(64); if cells[s].is_none() { cells[s] = Some(Piece(minors[rng.below(2)], own)); break; } } }
+        let pcs: Vec<(Square, Piece)> = (0..64).filter_map(|i| cells[i].map(|p| (sq(i), p))).collect();
+        let b = catch(|| ChessBoard::setup(&pcs, stm, none, none, None, draw_clock(rng), draw_clock(rng)).ok()).flatten()?;
+        let legal = catch(|| b.get_legal_moves())?;
+        return if legal.is_empty() { Some((b, "minimal-terminal")) } else { None };
+    }
+    // pinned-only: a line from the king, an own slider/pawn next on it, an enemy slider of the matching kind behind
+    let dirs: [(i32, i32); 8] = [(1,0),(-1,0),(0,1),(0,-1),(1,1),(1,-1),(-1,1),(-1,-1)];
+    let (dr, df) = dirs[rng.below(8)];
+    let at = |r: i32, f: i32| -> Option<usize> { if (0..8).contains(&r) && (0..8).contains(&f) { Some((r * 8 + f) as usize) } else { None } };
+    let (kr, kf) = ((k / 8) as i32, (k % 8) as i32);
+    let d1 = rng.range(1, 2) as i32;
+    let d2 = d1 + rng.range(1, 4) as i32;
+    let (p1, p2) = (at(kr + dr * d1, kf + df * d1)?, at(kr + dr * d2, kf + df * d2)?);
+    let orth = dr == 0 || df == 0;
+    let own_t = if rng.pct(25) { PieceType::Queen } else if orth { PieceType::Rook } else { PieceType::Bishop };
+    let opp_t = if rng.pct(30) { PieceType::Queen } else if orth { PieceType::Rook } else { PieceType::Bishop };
+    cells[p1] = Some(Piece(own_t, own));
+    cells[p2] = Some(Piece(opp_t, opp));
+    let mut okk = false;
+    for _ in 0..100 { let s = rng.below(64); if cells[s].is_none() { cells[s] = Some(Piece(PieceType::King, opp)); okk = true; break; } }
+    if !okk { return None; }
+    for _ in 0..rng.range(1, 6) {
+        let t = pt(1 + rng.below(4));
+        for _ in 0..50 { let s = rng.below(64); if cells[s].is_none() { cells[s] = Some(Piece(t, opp)); break; } }
+    }
+    let pcs: Vec<(Square, Piece)> = (0..64).filter_map(|i| cells[i].map(|p| (sq(i), p))).collect();
+    let b = catch(|| ChessBoard::setup(&pcs, stm, none, none, None, draw_clock(rng), draw_clock(rng)).ok()).flatten()?;
+    let legal = catch(|| b.get_legal_moves())?;
+    let incheck = catch(|| b.get_check_mask().bits() != 0).unwrap_or(true);
+    if incheck || legal.is_empty() { return None; }
+    let all_pinned = legal.iter().all(|m| match m { BoardMove::MovePiece(pm) => pm.get_source_square() == sq(p1), _ => false });
+    if all_pinned { Some((b, "pinned-only")) } else { None }
+}
+
 pub fn g7(budget: usize, rng: &mut Rng, out: &mut Out, f: &mut dyn FnMut(&mut Out, &Visit, &mut Rng)) {
+    // a quarter of the budget goes to the G7b shapes
+    {
+        let b2 = (budget / 4).max(6);
+        let mut kept = 0usize;
+        let mut tries = 0usize;
+        while kept < b2 && tries < b2 * 3000 + 1000 && out.room() {
+            tries += 1;
+            out.stats.inc("gen.g7b_candidates");
+            if let Some((b, kind)) = g7b_candidate(rng) {
+                kept += 1;
+                out.stats.inc(&format!("gen.g7_kept_{kind}"));
+                note_position(&mut out.stats, &b, 7);
+                f(out, &Visit { board: &b, played: None, gen: 7 }, rng);
+            }
+        }
+    }
     let mut kept = 0usize;
     let mut tries = 0usize;
     while kept < budget && tries < budget * 400 + 1000 && out.room() {
